@@ -313,6 +313,7 @@ def main():
     ap.add_argument("--replay")
     ap.add_argument("--keep", action="store_true")
     ap.add_argument("--jobs", type=int, default=int(os.environ.get("VERIF_JOBS", "0")))
+    ap.add_argument("--no-replay", action="store_true", help="development aid: report CBMC failures without the native replay step")
     ap.add_argument("--only", help="extra substring filter on harness names (debugging; evidence not written)")
     args = ap.parse_args()
     pid = args.property
@@ -419,6 +420,12 @@ def main():
                     inconclusive.append("%s: counterexample did not reproduce: %s" % (hid, "; ".join(descs)))
                 continue
             hid, descs = v
+            if args.no_replay:
+                path = save_replay(pid, hid, "", descs, "replay skipped (--no-replay)", False)
+                log("VIOLATION property=%s replay=%s" % (pid, path))
+                log("  harness %s: %s (UNREPLAYED: --no-replay)" % (short(hid), "; ".join(descs)))
+                exit_code = 1
+                continue
             test_src = extract_playback(scratch, hid)
             if not test_src:
                 # no input-dependent counterexample (e.g. deterministic failure or pointer-level UB)
